@@ -14,6 +14,8 @@ from argparse import Namespace as ArgsType
 from pathlib import Path
 from typing import Any
 
+from pydantic import ValidationError
+
 import kskm.common
 import kskm.ksr
 import kskm.misc
@@ -186,6 +188,10 @@ def ksrsigner(
         except FileNotFoundError:
             logging.critical("Configuration file %s not found", args.config)
             return False
+        except ValidationError as exc:
+            # The configuration does not fit the schema (unknown option, value out of range, ...).
+            # Report it the same way as any other configuration error (exit status "config").
+            raise ConfigurationError(str(exc)) from exc
 
     #
     # Prepare schema
